@@ -27,11 +27,36 @@ thread_local! {
     static FIELD_ALIAS: std::cell::RefCell<BTreeMap<String, String>> = std::cell::RefCell::new(BTreeMap::new());
 }
 
+thread_local! {
+    /// enums of the translated files: name -> variants (name, arity); and field (alias) -> enum name
+    static ENUMS: std::cell::RefCell<BTreeMap<String, Vec<(String, usize)>>> = std::cell::RefCell::new(BTreeMap::new());
+    static FIELD_ENUM: std::cell::RefCell<BTreeMap<String, String>> = std::cell::RefCell::new(BTreeMap::new());
+}
+
+/// the constructors of the enum stored in the field that ends the access path `text`
+fn variants_of_path(text: &str) -> Option<Vec<(String, usize)>> {
+    let last = text.rsplit('.').next()?;
+    let en = FIELD_ENUM.with(|m| m.borrow().get(last).cloned())?;
+    ENUMS.with(|m| m.borrow().get(&en).cloned())
+}
+
 fn const_value(name: &str) -> Option<String> {
     CONSTS.with(|m| m.borrow().get(name).cloned())
 }
 fn field_alias(name: &str) -> String {
     FIELD_ALIAS.with(|m| m.borrow().get(name).cloned()).unwrap_or_else(|| name.to_string())
+}
+
+fn field_alias_for(ty: &str, file: &str) -> Option<String> {
+    if ty.contains("Atomic") {
+        Some(if file.starts_with("mutex") { "locked".to_string() } else { "state".to_string() })
+    } else if ty.contains("KanalPtr") {
+        Some("ptr".to_string())
+    } else if ty.contains("KanalWaker") {
+        Some("waker".to_string())
+    } else {
+        None
+    }
 }
 
 /// constants and field types of one source file (call before building automata)
@@ -43,21 +68,21 @@ pub fn learn_names(file: &str, f: &syn::File) {
                     CONSTS.with(|m| m.borrow_mut().insert(c.ident.to_string(), toks(&l.lit)));
                 }
             }
+            Item::Enum(en) => {
+                if is_cfg_verif(&en.attrs) {
+                    continue;
+                }
+                let vs: Vec<(String, usize)> = en.variants.iter().map(|v| (v.ident.to_string(), v.fields.len())).collect();
+                ENUMS.with(|m| m.borrow_mut().insert(en.ident.to_string(), vs));
+            }
             Item::Struct(st) => {
                 for fld in st.fields.iter() {
                     if let Some(id) = &fld.ident {
                         let ty = toks(&fld.ty);
-                        let alias = if ty.contains("Atomic") {
-                            Some(if file.starts_with("mutex") { "locked" } else { "state" })
-                        } else if ty.contains("KanalPtr") {
-                            Some("ptr")
-                        } else if ty.contains("KanalWaker") {
-                            Some("waker")
-                        } else {
-                            None
-                        };
-                        if let Some(a) = alias {
-                            FIELD_ALIAS.with(|m| m.borrow_mut().insert(id.to_string(), a.to_string()));
+                        let first = ty.split(|c: char| !c.is_alphanumeric() && c != '_').find(|x| !x.is_empty()).unwrap_or("").to_string();
+                        FIELD_ENUM.with(|m| m.borrow_mut().insert(field_alias_for(&ty, file).unwrap_or(id.to_string()), first));
+                        if let Some(a) = field_alias_for(&ty, file) {
+                            FIELD_ALIAS.with(|m| m.borrow_mut().insert(id.to_string(), a));
                         }
                     }
                 }
@@ -76,6 +101,9 @@ pub struct FnDef {
     pub params: Vec<String>,
     pub has_self: bool,
     pub exported: bool,
+    /// printed return type
+    pub ret: String,
+    pub in_trait: bool,
     pub block: Block,
 }
 
@@ -156,7 +184,11 @@ fn mk(stem: &str, ty: &str, tr: &str, sig: &syn::Signature, exported: bool, bloc
     }
     q.push('.');
     q.push_str(&name);
-    FnDef { file: stem.to_string(), ty: ty.to_string(), name, qname: q, params, has_self, exported, block: block.clone() }
+    let ret = match &sig.output {
+        syn::ReturnType::Default => String::new(),
+        syn::ReturnType::Type(_, t) => toks(&**t),
+    };
+    FnDef { file: stem.to_string(), ty: ty.to_string(), name, qname: q, params, has_self, exported, ret, in_trait: !tr.is_empty(), block: block.clone() }
 }
 
 // ------------------------------------------------------------------ symbolic values
@@ -267,6 +299,8 @@ struct B<'a> {
     cur_ty: Vec<String>,
     cur_file: Vec<String>,
     unsupported: Vec<String>,
+    /// what `self` stands for inside an inlined method of a field's type
+    self_val: Vec<Val>,
 }
 
 fn negated(t: &str) -> Option<String> {
@@ -424,7 +458,7 @@ impl<'a> B<'a> {
             }
         }
         let keep_last = q.env.get("<last>").cloned();
-        q.env.retain(|k, _| outer.contains(k));
+        q.env.retain(|k, _| outer.contains(k) || k.starts_with("<shape:"));
         if let Some(l) = keep_last {
             q.env.insert("<last>".into(), l);
         }
@@ -454,6 +488,34 @@ impl<'a> B<'a> {
             }
         }
         out
+    }
+
+    /// a value of a known enum whose constructor is not known yet: one branch per constructor, remembered
+    fn case_split(&mut self, p: Path, v: &Val) -> Vec<(Path, Val)> {
+        if self.mode != AMode::Protocol || v.shape != Shape::Unknown {
+            return vec![(p, v.clone())];
+        }
+        let vars = match variants_of_path(&v.text) {
+            Some(x) if !x.is_empty() => x,
+            _ => return vec![(p, v.clone())],
+        };
+        let mut out = vec![];
+        for (name, arity) in vars {
+            let mut q = self.step(&p, &format!("case[{}={}]", v.text, name));
+            let args: Vec<Val> = (0..arity).map(|k| Val { text: format!("{}.{}.{}", v.text, name, k), shape: Shape::Unknown, proto: v.proto }).collect();
+            let nv = Val { text: v.text.clone(), shape: Shape::Ctor(name.clone(), args), proto: v.proto };
+            q.env.insert(format!("<shape:{}>", v.text), nv.clone());
+            out.push((q, nv));
+        }
+        out
+    }
+    fn recall_shape(env: &Env, v: Val) -> Val {
+        if v.shape == Shape::Unknown {
+            if let Some(k) = env.get(&format!("<shape:{}>", v.text)) {
+                return k.clone();
+            }
+        }
+        v
     }
 
     // ---------------------------------------------------------------- blocks and statements
@@ -708,7 +770,11 @@ impl<'a> B<'a> {
                 let mut o = self.eval(&l.expr, p);
                 ctl.absorb_control(&mut o);
                 let mut res = vec![];
+                let mut scrut = vec![];
                 for (p, v) in o.normal {
+                    scrut.extend(self.case_split(p, &v));
+                }
+                for (p, v) in scrut {
                     match self.pat_match(&l.pat, &v) {
                         Some(true) => {
                             let mut p = p;
@@ -795,7 +861,7 @@ impl<'a> B<'a> {
                 let full = path_text(e).unwrap_or_default();
                 let v = if !full.contains("::") {
                     match p.env.get(&full) {
-                        Some(v) => v.clone(),
+                        Some(v) => Self::recall_shape(&p.env, v.clone()),
                         None => match full.as_str() {
                             "self" | "this" => Val::pure("self"),
                             "None" => Val::ctor("None", vec![]),
@@ -844,7 +910,9 @@ impl<'a> B<'a> {
                         }
                         res.normal.push((q2, Val::pure(&format!("<locked>.{}", m))));
                     } else {
-                        res.normal.push((q, Val { text: format!("{}.{}", v.text, m), shape: Shape::Unknown, proto: v.proto }));
+                        let nv = Val { text: format!("{}.{}", v.text, m), shape: Shape::Unknown, proto: v.proto };
+                        let nv = Self::recall_shape(&q.env, nv);
+                        res.normal.push((q, nv));
                     }
                 }
                 res
@@ -858,7 +926,9 @@ impl<'a> B<'a> {
                     if self.mode == AMode::Protocol && lhs.text.starts_with("self") {
                         // a write to the signal's own memory (waker cell, slot pointer)
                         let lbl = format!("write[{}]", lhs.text);
-                        let p2 = self.step(&p, &lbl);
+                        let mut p2 = self.step(&p, &lbl);
+                        let root: String = lhs.text.split(".Sync").next().unwrap_or(&lhs.text).to_string();
+                        p2.env.retain(|k, _| !(k.starts_with("<shape:") && k.contains(&root)));
                         ctl.normal.push((p2, Val::unit()));
                     } else {
                         let mut p = p;
@@ -912,7 +982,11 @@ impl<'a> B<'a> {
                 let mut ctl = Out::default();
                 ctl.absorb_control(&mut o);
                 let outer: BTreeSet<String> = p.env.keys().cloned().collect();
+                let mut scrut = vec![];
                 for (sp, v) in o.normal {
+                    scrut.extend(self.case_split(sp, &v));
+                }
+                for (sp, v) in scrut {
                     let mut decided = false;
                     for arm in &m.arms {
                         if is_cfg_verif(&arm.attrs) {
@@ -1204,6 +1278,20 @@ impl<'a> B<'a> {
             if self.mode == AMode::Lock {
                 let moved = Self::moved_guards(&m.args, &q.env);
                 let mut q = q.clone();
+                if let Some(blocking) = self.prims.get(&name).cloned() {
+                    // the acquisition primitive written as a method (of a trait on the mutex, of the handle)
+                    let g = Val { text: "<guard>".into(), shape: Shape::Guard, proto: false };
+                    if blocking {
+                        let q2 = self.ev(&q, "acquire");
+                        ctl.normal.push((q2, g));
+                    } else {
+                        let q1 = self.ev(&q, "try_acquire=some");
+                        ctl.normal.push((q1, Val::ctor("Some", vec![g])));
+                        let q2 = self.ev(&q, "try_acquire=none");
+                        ctl.normal.push((q2, Val::ctor("None", vec![])));
+                    }
+                    continue;
+                }
                 if rv.shape == Shape::Guard {
                     // a use of the protected data through the guard; a guard that is a temporary ends with it
                     q = self.cs(&q);
@@ -1353,6 +1441,22 @@ impl<'a> B<'a> {
                     ctl.absorb_control(&mut o);
                     ctl.normal.append(&mut o.normal);
                     continue;
+                }
+            }
+            // a method of a type of these files, on one of the signal's own fields (e.g. a helper of the waker enum)
+            if rv.text.starts_with("self.") {
+                let last = rv.text.rsplit('.').next().unwrap_or("").to_string();
+                let ty = FIELD_ENUM.with(|m| m.borrow().get(&last).cloned());
+                if let Some(t) = ty {
+                    let target = self.fns.iter().find(|f| f.name == name && f.has_self && f.ty == t);
+                    if let Some(f) = target {
+                        self.self_val.push(rv.clone());
+                        let mut o = self.inline(f, args.to_vec(), q.clone());
+                        self.self_val.pop();
+                        ctl.absorb_control(&mut o);
+                        ctl.normal.append(&mut o.normal);
+                        continue;
+                    }
                 }
             }
             let pr = rv.proto || args.iter().any(|a| a.proto);
@@ -1602,7 +1706,20 @@ impl<'a> B<'a> {
         for (k, v) in f.params.iter().zip(args.into_iter()) {
             env.insert(k.clone(), v);
         }
+        if let Some(sv) = self.self_val.last().cloned() {
+            if f.has_self && sv.text != "self" {
+                env.insert("self".into(), Self::recall_shape(&p.env, sv));
+            }
+        }
+        // what is known about the shape of the signal's fields stays known in the callee
+        for (k, v) in p.env.iter() {
+            if k.starts_with("<shape:") {
+                env.insert(k.clone(), v.clone());
+            }
+        }
+        let saved_self = std::mem::take(&mut self.self_val);
         let mut o = self.block(&f.block, Path { node: p.node, env });
+        self.self_val = saved_self;
         self.stack.pop();
         self.cur_ty.pop();
         self.cur_file.pop();
@@ -1612,6 +1729,11 @@ impl<'a> B<'a> {
             // a guard returned by the callee stays with the value; the others end with the callee's frame
             let q = if Self::has_guard(&v) { q } else { self.release_all(q) };
             let mut env = p.env.clone();
+            for (k, sv) in q.env.iter() {
+                if k.starts_with("<shape:") {
+                    env.insert(k.clone(), sv.clone());
+                }
+            }
             if let Some(l) = q.env.get("<last>") {
                 env.insert("<last>".into(), l.clone());
             } else {
@@ -1790,6 +1912,9 @@ pub fn meet(a: &str, b: &str) -> String {
 pub fn lock_prims(fns: &[FnDef]) -> BTreeMap<String, bool> {
     let mut m = BTreeMap::new();
     for f in fns {
+        if !f.ret.contains("MutexGuard") {
+            continue;
+        }
         let t = toks(&f.block);
         if t.contains(". try_lock ()") {
             m.insert(f.name.clone(), false);
@@ -1815,6 +1940,7 @@ pub fn automaton_mode(fns: &[FnDef], f: &FnDef, mode: AMode, prims: &BTreeMap<St
         cur_ty: vec![f.ty.clone()],
         cur_file: vec![f.file.clone()],
         unsupported: vec![],
+        self_val: vec![],
     };
     let start = b.node();
     let mut env = Env::new();
